@@ -68,3 +68,17 @@ def run(ctx: Ctx):
         ctx.check(sorted(convs) == sorted(["state_derivative.expr.xreplace(global_var_map)", "intermediate.expr.xreplace(global_var_map)"]), "R15.c", h.key("converted"), "derivative and intermediate expressions are renamed with the full map", f"converted: {convs}", h.where(loops[1]))
         pv = any(norm(c) == "var.set_rhs(parameter.value)" for c in ast.walk(loops[0]) if isinstance(c, ast.Call)) and any(norm(c) == "v.promote(state.value)" for c in ast.walk(loops[1]) if isinstance(c, ast.Call))
         ctx.check(pv, "R15.c", h.key("values"), "parameter values and state initial values are exported", "gotran_to_myokit does not export parameter values / initial state values from the atoms", h.where())
+
+    ctx.rule("R15.d", "the documented save-and-reload step keeps every operand of the n-ary connectives Myokit's sympy writer produces", floor=3)
+    from . import printers
+    from .c11 import all_args_joined
+
+    M = printers.model(ctx)
+    for cname in ("And", "Or"):
+        fw = M.method("ode", f"_print_{cname}")
+        ctx.require(fw, f"writer _print_{cname} not found")
+        all_args_joined(fw, None, ctx, "R15.d", cname)
+    be = sm.func("expressions.py", "build_expression.expr2symbols")
+    gen = [c for c in ast.walk(be.node) if isinstance(c, ast.Call) and isinstance(c.func, ast.Call) and (dotted(c.func.func) or "") == "getattr"]
+    okg = bool(gen) and all(len(c.args) == 1 and isinstance(c.args[0], ast.Starred) and norm(c.args[0].value).endswith("for c in tree.children[1:]]") for c in gen)
+    ctx.check(okg, "R15.d", be.key("apply-all"), "the reader applies functions to every argument", "build_expression does not apply a function to every argument child: And(a, b, c) written by the saver loses operands on reload", be.where())
